@@ -158,13 +158,13 @@ Definition psc (st : settings F) (default32 : bool) (dt : dtype) (n : nat) (A : 
 Definition clamp_min0 (x : F) : F := if agtb ar x (a0 ar) then x else if aisnan ar x then x else (a0 ar).
 
 Definition op_cholesky (st : settings F) (default32 : bool) (dt : dtype) (n : nat) (A : list (matrix F))
-           (upper : bool) : result F * list (matrix F) :=
-  let '(r, A') :=
-    if Nat.eqb n 1%nat then (Ok (map (map (map (fun x => asqrt ar (clamp_min0 x)))) A) [], A)
-    else psc st default32 dt n A false None None in
+           (upper : bool) : result F * mem :=
+  let '(r, h) :=
+    if Nat.eqb n 1%nat then (Ok (map (map (map (fun x => asqrt ar (clamp_min0 x)))) A) [], [A])
+    else psd_safe_cholesky st default32 dt n [A] O false None None in
   match r with
-  | Ok L w => (Ok (if upper then map (transpose n) L else L) w, A')
-  | e => (e, A')
+  | Ok L w => (Ok (if upper then map (transpose n) L else L) w, h)
+  | e => (e, h)
   end.
 
 End Generic.
